@@ -169,3 +169,93 @@ def rule_handlersafe(ctx, send_parts, send_names, handler_names):
     ctx.check(not short, 'C18.HANDLERSAFE', ctx.key(f, None, 'args[0] exists'), 'every call of _send passes a request argument',
               f'_send is called without a request argument at {short}', loc=ctx.loc(f, f.node))
     return n + 1
+
+
+def rule_vector_single(ctx):
+    '''_send_vector answers from ONE request carrying the whole payload (or sequentially joined parts): results of parts
+    joined in completion order no longer line up with the requests.'''
+    f = ctx.func('daemon', 'Daemon._send_vector')
+    conc = []
+    for x in f.own_nodes():
+        if isinstance(x, (ast.AsyncFor,)):
+            conc.append(f'line {x.lineno} async for')
+        if isinstance(x, ast.Call):
+            nm = norm(x.func)
+            if nm.split('.')[-1] in ('spawn', 'gather', 'as_completed', 'create_task', 'ensure_future', 'TaskGroup', 'wait'):
+                conc.append(f'line {x.lineno} {nm}')
+    ctx.check(not conc, 'C18.ALIGN', ctx.key(f, None, 'no concurrent parts'),
+              'the vector is not split into concurrently running parts',
+              f'the vector is sent as concurrent parts ({"; ".join(conc[:3])}): parts complete in any order, so joined results are '
+              'paired with the wrong requests', loc=ctx.loc(f, f.node))
+    pl = [s for s in f.node.body if isinstance(s, ast.Assign) and isinstance(s.value, ast.ListComp) and isinstance(s.value.elt, ast.Dict)]
+    pv = norm(pl[0].targets[0]) if len(pl) == 1 else None
+    rets = [r for r in f.own_nodes() if isinstance(r, ast.Return)]
+    bad = []
+    for r in rets:
+        v = r.value
+        if isinstance(v, ast.List) and not v.elts:
+            continue
+        if isinstance(v, ast.Await) and isinstance(v.value, ast.Call) and q.callee_name(ctx, f, v.value) == 'self._send' \
+                and len(v.value.args) == 3 and norm(v.value.args[1]) == pv:
+            continue
+        bad.append(norm(r)[:60])
+    ctx.check(not bad and bool(rets), 'C18.ALIGN', ctx.key(f, None, 'whole payload in one request'),
+              'what is returned is the processed reply to the whole payload, sent as one request',
+              f'returns {bad}: not the processed reply to the one request carrying the whole payload', loc=ctx.loc(f, f.node))
+    return 2
+
+
+def rule_url_per_attempt(ctx):
+    '''Fail-over changes current_url() between attempts: the URL must be evaluated inside the retried function, never once by
+    the caller of _send.'''
+    snd = ctx.func('daemon', 'Daemon._send')
+    n = 0
+    for (caller, _callee, kind, node) in ctx.cg.callers(snd):
+        if kind not in ('CALL', 'AWAIT') or not node.args:
+            continue
+        n += 1
+        frozen = [norm(a)[:50] for a in node.args[1:] for c in ast.walk(a) if isinstance(c, ast.Call) and norm(c.func).endswith('current_url')]
+        # arguments that are locals computed from current_url()
+        from .. import dataflow as df
+        d = df.defs(caller)
+        for a in node.args[1:]:
+            if isinstance(a, ast.Name):
+                for _st, rhs in d.get(a.id, []):
+                    if rhs is not None and any(isinstance(c, ast.Call) and norm(c.func).endswith('current_url') for c in ast.walk(rhs)):
+                        frozen.append(f'{a.id} = {norm(rhs)[:50]}')
+        retried = ctx.res.resolve_ref(node.args[0], caller)
+        inside = retried is not None and any(q.callee_name(ctx, retried, c) == 'self.current_url' for c in q.own_calls(retried))
+        ctx.check(not frozen and inside, 'C18.URL', ctx.key(caller, q.stmt(node)),
+                  'the daemon URL is looked up by the retried function on every attempt',
+                  (f'the URL is computed once by the caller ({frozen}) and re-used by every retry' if frozen else
+                   f'the retried function {retried.qual if retried else "?"} does not look up current_url()') +
+                  ': after a fail-over the call keeps talking to the dead daemon (and keeps rotating the shared URL index)',
+                  loc=ctx.loc(caller, node))
+    return n
+
+
+def rule_content_type(ctx):
+    '''A refusal is recognised by the Content-Type HEADER the daemon sent.  aiohttp's resp.content_type substitutes
+    application/octet-stream when the header is missing, so a header-less refusal (bare 503 from a proxy) would be taken
+    for the block.'''
+    n = 0
+    for qual, want in (('Daemon._get_to_file', 'application/octet-stream'), ('Daemon._post_json', 'application/json')):
+        f = ctx.func('daemon', qual)
+        from .. import dataflow as df
+        d = df.defs(f)
+        tests = [c for c in f.own_nodes() if isinstance(c, ast.Compare) and len(c.ops) == 1 and
+                 any(isinstance(x, ast.Constant) and x.value == want for x in (c.left, c.comparators[0]))]
+        ok, why = False, f'no comparison with {want!r} found'
+        if len(tests) == 1:
+            other = tests[0].comparators[0] if isinstance(tests[0].left, ast.Constant) else tests[0].left
+            src = other
+            if isinstance(other, ast.Name) and len(d.get(other.id, [])) == 1:
+                src = d[other.id][0][1]
+            txt = norm(src)
+            ok = '.headers' in txt and 'Content-Type' in txt
+            why = f'the reply kind is taken from `{txt[:60]}`, not from the Content-Type header actually sent'
+        n += 1
+        ctx.check(ok, 'C18.CONTENTTYPE', ctx.key(f, None, 'kind from the header'),
+                  'the reply kind is the Content-Type header the daemon sent (absent header = not the expected kind)',
+                  why + ': a header-less refusal is accepted as the genuine answer', loc=ctx.loc(f, f.node))
+    return n
